@@ -1012,6 +1012,8 @@ class _Expr(SymEval):
 
 
 class AccessorEval:
+    _MISSING_FIELD = object()
+
     def __init__(self, prog, cls, limit=400):
         self.prog = prog
         self.cls = cls
@@ -1030,6 +1032,23 @@ class AccessorEval:
         g = ci.getters.get(name)
         if g is not None:
             return self.run(g, rec, {})
+        st_f = ci.fields.get(name) if isinstance(getattr(ci, "fields", None), dict) else None
+        if st_f is not None and getattr(st_f, "value", None) is not None:
+            # a declared field the model object was built without: its declared default (a constant, or
+            # `attrs.field(default=<constant>)`); the object then carries it like any other field
+            v_ = st_f.value
+            dflt = self._MISSING_FIELD
+            if isinstance(v_, ast.Constant):
+                dflt = v_.value
+            elif isinstance(v_, ast.Call) and getattr(v_.func, "attr", getattr(v_.func, "id", "")) in ("field", "ib", "attrib"):
+                for k_ in v_.keywords:
+                    if k_.arg == "default" and isinstance(k_.value, ast.Constant):
+                        dflt = k_.value.value
+                    elif k_.arg == "factory" and isinstance(k_.value, ast.Name) and k_.value.id in ("list", "dict", "set"):
+                        dflt = {"list": list, "dict": dict, "set": set}[k_.value.id]()
+            if dflt is not self._MISSING_FIELD:
+                rec.fields[name] = dflt
+                return dflt
         # a class-level attribute set by a plain assignment in the class body (evaluated once per evaluator, in order)
         cache = self.__dict__.setdefault("_class_attrs", {})
         if ci.qualname not in cache:
